@@ -11,6 +11,9 @@ PROP = dict(
         "MM.C26.C26_glob_ancestor",
         "MM.C26.C26_refuted",
         "MM.C26.C26_partial",
+        "MM.C26.C26_partial_upload",
+        "MM.C26.C26_partial_delete_recursive",
+        "MM.C26.C26_password_required",
     ],
     spec=True,
     chunk=6000,
@@ -28,11 +31,13 @@ PROP = dict(
         "the filesystem (MM/Model/C27.lean), path/filepath.Clean, Match, Dir, EvalSymlinks and unicode/utf8 decoding are MODELLED and validated by the correspondence run only",
         "Unicode NFC (golang.org/x/text) is a parameter of the model; the harness passes the library's result for each request path; patterns are ASCII",
         "the sandbox root is written '@' in scripts: the model works with paths relative to it (patterns never match above it)",
-        "bcrypt password check and MaxFileSize are not exercised (no password configured, no size limit)",
+        "the password check is modelled with bcrypt as an abstract predicate (real bcrypt hashes in T-diff); MaxFileSize is modelled for uploads (declared size, and the "
+        "copy limit that leaves MaxFileSize+1 bytes on disk) and downloads; both are exercised by T-diff with sizes around the limit",
     ],
     assumptions=[
         "C26_partial: request path already clean, no '..', no trailing slash, no component of it is a symbolic link; operations download, list, stat, chmod, non-recursive delete",
-        "directory transfers (tar) are covered by C27, recursive delete and the parent-directory creation of uploads are exercised by T-diff only",
+        "C26_partial_upload additionally assumes the filesystem is a tree; the parent directories an upload creates are prefixes of the validated path and need not "
+        "be inside the allowed paths themselves; directory transfers (tar) are covered by C27",
     ],
     manifest=dict(
         category="proof",
